@@ -275,13 +275,19 @@ func badRowsFor(file string, k int) []badRow {
 			{"unparseable-date", map[string]string{"service_id": id, "date": ""}}, {"blank-required", map[string]string{"service_id": "SV0", "date": "19990101", "exception_type": ""}}}
 	case "shapes.txt":
 		return []badRow{{"blank-required", map[string]string{"shape_id": ""}}, {"unparseable-number", map[string]string{"shape_pt_lat": "north"}},
-			{"unparseable-number", map[string]string{"shape_pt_lon": "1e999"}}, {"unparseable-number", map[string]string{"shape_pt_sequence": "1.5"}}, {"blank-required", map[string]string{"shape_pt_sequence": ""}}}
+			{"unparseable-number", map[string]string{"shape_pt_lon": "1e999"}}, {"unparseable-number", map[string]string{"shape_pt_sequence": "1.5"}}, {"blank-required", map[string]string{"shape_pt_sequence": ""}},
+			// integer-shaped but outside int32: rejected, not wrapped around
+			{"number-out-of-range", map[string]string{"shape_pt_sequence": "4294967296"}}, {"number-out-of-range", map[string]string{"shape_pt_sequence": "4294967298"}},
+			{"number-out-of-range", map[string]string{"shape_pt_sequence": "2147483648"}}, {"number-out-of-range", map[string]string{"shape_pt_sequence": "-2147483649"}},
+			{"number-out-of-range", map[string]string{"shape_pt_sequence": "99999999999999999999"}}}
 	case "trips.txt":
 		return []badRow{{"blank-required", map[string]string{"trip_id": ""}}, {"blank-required", map[string]string{"trip_id": id, "route_id": ""}},
 			{"unknown-reference", map[string]string{"trip_id": id, "route_id": "NOPE"}}, {"unknown-reference", map[string]string{"trip_id": id, "service_id": "NOPE"}}}
 	case "frequencies.txt":
 		return []badRow{{"blank-required", map[string]string{"trip_id": ""}}, {"unknown-reference", map[string]string{"trip_id": "NOPE"}},
-			{"unparseable-number", map[string]string{"headway_secs": "x"}}, {"unparseable-time", map[string]string{"start_time": "1:2:3:4"}}, {"blank-required", map[string]string{"end_time": ""}}}
+			{"unparseable-number", map[string]string{"headway_secs": "x"}}, {"unparseable-time", map[string]string{"start_time": "1:2:3:4"}}, {"blank-required", map[string]string{"end_time": ""}},
+			{"number-out-of-range", map[string]string{"headway_secs": "4294967596"}}, {"number-out-of-range", map[string]string{"headway_secs": "2147483648"}},
+			{"number-out-of-range", map[string]string{"headway_secs": "-2147483649"}}}
 	case "stop_times.txt":
 		return []badRow{{"blank-required", map[string]string{"stop_id": ""}}, {"blank-required", map[string]string{"trip_id": ""}}, {"unknown-reference", map[string]string{"trip_id": "NOPE"}},
 			{"unknown-reference", map[string]string{"stop_id": "NOPE"}}, {"unparseable-number", map[string]string{"stop_sequence": "x"}}, {"blank-required", map[string]string{"stop_sequence": ""}},
@@ -474,7 +480,7 @@ func init() {
 	}
 	props["C09"] = func() Prop {
 		return &staticProp{id: "C09", nQuick: 1500, nThor: 60000, oracle: oracleC09, gen: genC09,
-			rule: "well-formed feeds (as C01) into which 1-5 invalid rows are inserted at the beginning, the end or a random position of random files; causes per file: a required value blank, a required number / time / date unparseable, a required reference naming an id that does not exist (a rejected stops.txt row carries a parent_station, rejected calendar rows name existing services); the parse with the rows must equal the parse without them except for warnings, and each warning must carry its row's file, number, cells and header; distinct = distinct input JSON; non-trivial = at least one inserted row"}
+			rule: "well-formed feeds (as C01) into which 1-5 invalid rows are inserted at the beginning, the end or a random position of random files; causes per file: a required value blank, a required number / time / date unparseable (also integer-shaped numbers just outside and far outside the int32 range), a required reference naming an id that does not exist (a rejected stops.txt row carries a parent_station, rejected calendar rows name existing services); the parse with the rows must equal the parse without them except for warnings, and each warning must carry its row's file, number, cells and header; distinct = distinct input JSON; non-trivial = at least one inserted row"}
 	}
 	props["C10"] = func() Prop {
 		return &staticProp{id: "C10", nQuick: 1500, nThor: 60000, oracle: oracleC10, gen: genC10,
